@@ -11,6 +11,7 @@ import (
 	"fmt"
 	"time"
 
+	"google.golang.org/protobuf/encoding/protowire"
 	"google.golang.org/protobuf/proto"
 	"google.golang.org/protobuf/types/known/durationpb"
 	"google.golang.org/protobuf/types/known/fieldmaskpb"
@@ -95,6 +96,35 @@ func purePrograms() []program {
 		eq := cmp.Equal(cmp.FloatValueApprox(0.1, 0.5), cmp.TimeValueWithin(time.Second), cmp.DurationValueWithin(time.Second))
 		x, y := tm(12), tm(10)
 		twice(func() { _ = eq(x, y); _ = eq(x, x) })
+	})
+	add("cmp/one comparer used by two threads on messages that differ in their unknown fields only", func() {
+		// (known fields equal, unknown fields of one length and different bytes: the comparison goes all the way
+		// into the unknown fields, field number by field number)
+		eq := cmp.Equal(cmp.FloatValueApprox(0.1, 0.5))
+		x, y := tm(12), tm(12)
+		x.ProtoReflect().SetUnknown(protowire.AppendVarint(protowire.AppendTag(protowire.AppendVarint(protowire.AppendTag(nil, 9001, protowire.VarintType), 1), 9002, protowire.VarintType), 2))
+		y.ProtoReflect().SetUnknown(protowire.AppendVarint(protowire.AppendTag(protowire.AppendVarint(protowire.AppendTag(nil, 9002, protowire.VarintType), 2), 9001, protowire.VarintType), 3))
+		twice(func() { _ = eq(x, y); _ = eq(y, x) })
+	})
+	add("value/two subscribers of one no-duplicates Value written with messages that differ in their unknown fields only", func() {
+		v := resource.NewValue(resource.WithInitialValue(tm(12)), resource.WithNoDuplicates())
+		ctx, cancel := context.WithCancel(context.Background())
+		defer cancel()
+		for i := 0; i < 2; i++ {
+			ch := v.Pull(ctx)
+			go func() {
+				for e := range ch {
+					touch(e.Value)
+				}
+			}()
+		}
+		w := tm(12)
+		w.ProtoReflect().SetUnknown(protowire.AppendVarint(protowire.AppendTag(nil, 9001, protowire.VarintType), 1))
+		v.Set(w)
+		w2 := tm(12)
+		w2.ProtoReflect().SetUnknown(protowire.AppendVarint(protowire.AppendTag(nil, 9001, protowire.VarintType), 2))
+		v.Set(w2)
+		cancel()
 	})
 	mode := func() *traits.ElectricMode {
 		return &traits.ElectricMode{Id: "m", Title: "t", StartTime: timestamppb.New(time.Unix(100, 500)), Segments: []*traits.ElectricMode_Segment{
